@@ -11,6 +11,8 @@ R1.1 panic obligations.  The three public entry points (AisParser::parse with an
 R1.2 termination.  The interpreter accepts only acyclic local calls and the three loop shapes of
      DESIGN 2.2; anything else is reported as unanalysable.
 R1.3 no reachable abort/exit, no non-Rust ABI call.
+R1.4 hand-written Debug/Display impls neither panic nor return an error of their own (format!,
+     to_string and println! panic on such an error); see rules/fmtimpls.py.
 Census: the obligation sites met must not fall below the floors counted by hand.
 """
 from __future__ import annotations
@@ -71,6 +73,7 @@ FLOORS = {      # vacuity guard: obligation sites met per (config, root); about 
     ("std", "AisParser::parse"): 1, ("std", "messages::unarmor"): 20, ("std", "messages::parse"): 200,
     ("alloc", "AisParser::parse"): 1, ("alloc", "messages::unarmor"): 20, ("alloc", "messages::parse"): 200,
     ("none", "AisParser::parse"): 1, ("none", "messages::unarmor"): 20, ("none", "messages::parse"): 200,
+    ("both", "AisParser::parse"): 1, ("both", "messages::unarmor"): 20, ("both", "messages::parse"): 200,
 }
 
 PANIC_CALLEES = ("core::panicking::", "core::option::unwrap_failed", "core::result::unwrap_failed", "core::option::expect_failed")
@@ -104,6 +107,15 @@ def run(ctx, chk):
     for cfg in cfgs:
         facts = ctx.facts(cfg)
         inv = reachable_state_invariant(ctx, cfg, chk)
+        # R1.4: formatting impls the crate's own format!/to_string calls (and every user's
+        # println!) run: derived ones cannot panic; hand-written ones are interpreted on an
+        # arbitrary value, and must neither panic nor return an error of their own making
+        from .fmtimpls import analyse_manual_fmt
+        nfmt, nman, findings = analyse_manual_fmt(facts)
+        for (kind, tyname, trn, key, msg) in findings:
+            chk.ob(False, "C01/manual-fmt/%s/%s/%s" % (kind, tyname, key), "[%s] %s" % (cfg, msg))
+        if not findings:
+            chk.ob(True, sample={"config": cfg, "fmt_impls": nfmt, "hand_written": nman, "status": "no panic, no error of their own"})
         for (root, I, npaths) in analyse(cfg, facts, inv):
             nleaf = finish_leaves(I)
             sites = 0
